@@ -8,6 +8,7 @@ import (
 	"golang.org/x/tools/go/ssa"
 
 	. "htcheck/internal/core"
+	"htcheck/internal/zone"
 )
 
 func init() { Registry["C08"] = c08 }
@@ -75,6 +76,7 @@ func c08(c *Ctx) {
 	c08TimeoutConn(c)
 	c08ReadKeepsRemainder(c)
 	c08ListenerOwnVariables(c)
+	c08DetectorPresence(c)
 }
 
 func c08Selector(c *Ctx, find, peek *ssa.Function, peekT *types.Named) {
@@ -357,6 +359,35 @@ func c08Peek(c *Ctx, peek, pread *ssa.Function, peekT *types.Named) {
 		}
 		if st.Field(i).Embedded() {
 			connIdx = i
+		}
+	}
+	if bufIdx < 0 && connIdx >= 0 {
+		// a fixed-size replay store ([N]byte with offsets): whatever Peek reads off the socket has to fit into it
+		arrIdx := -1
+		for i := 0; i < st.NumFields(); i++ {
+			if ar, ok := st.Field(i).Type().(*types.Array); ok && types.Identical(ar.Elem(), types.Typ[types.Byte]) {
+				arrIdx = i
+			}
+		}
+		if arrIdx >= 0 {
+			pr := zone.New(peek)
+			nc := 0
+			for _, call := range Calls(peek) {
+				cv, ok := call.(*ssa.Call)
+				if !ok {
+					continue
+				}
+				o, ok := pr.CopyObligation(cv)
+				if !ok {
+					continue
+				}
+				nc++
+				good, why := pr.Prove(o, cv)
+				c.Check(good, "peek-replay", fmt.Sprintf("Peek keeps all it read (copy #%d into the fixed store)", nc), p.InstrPos(cv), "the bytes read always fit into the replay store",
+					"Peek reads up to len(p) bytes off the socket but copy() keeps only what fits into the fixed-size replay store ("+why+"): the bytes beyond it were shown to the detectors and are gone for the chosen service, whose requests after that point are lost or merged")
+			}
+			c.Undecided("peek-replay", "fixed-size replay store", p.Pos(peek.Pos()), "the replay store is an array with offsets; the offset bookkeeping of Peek/Read is not analysed by this rule (slice form expected)")
+			return
 		}
 	}
 	if !c.Anchor(bufIdx >= 0 && connIdx >= 0, "peek-replay", "peekConnection buffer and embedded conn fields") {
